@@ -169,7 +169,15 @@ def grid_scenarios(tier, rng):
             j0 = rng.randrange(1, 4); j1 = rng.randrange(j0 + 3, jmax)
             sub = [i0, i1, j0, j1]
         i0, i1, j0, j1 = sub if sub else (1, imax - 1, 1, jmax - 1)
-        geo = (rng.randrange(12, 24), rng.randrange(-6, 7), rng.randrange(8, 16), rng.randrange(-5, 6), rng.randrange(0, 3))
+        while True:      # keep the coordinate tables a regular curvilinear grid: cell sizes never collapse (Jacobian well away from singular)
+            geo = (rng.randrange(12, 24), rng.randrange(-6, 7), rng.randrange(8, 16), rng.randrange(-5, 6), rng.randrange(0, 3))
+            lon, latt = _tables(dict(geo=geo, imax=imax, jmax=jmax))
+            dlon_i = min(lon[j][i + 1] - lon[j][i] for j in range(jmax) for i in range(imax - 1))
+            dlat_j = min(latt[j + 1][i] - latt[j][i] for j in range(jmax - 1) for i in range(imax))
+            cross = max(max(abs(lon[j + 1][i] - lon[j][i]) for j in range(jmax - 1) for i in range(imax)),
+                        max(abs(latt[j][i + 1] - latt[j][i]) for j in range(jmax) for i in range(imax - 1)))
+            if dlon_i >= 8 and dlat_j >= 5 and cross <= min(dlon_i, dlat_j) + 3:
+                break
         Q = 4
         pts = [(x, y) for x in range(i0 * Q, (i1 - 1) * Q) for y in range(j0 * Q, (j1 - 1) * Q)]
         rng.shuffle(pts)
